@@ -912,6 +912,65 @@ def mon_latency(case, lines, meta):
     return None
 
 
+def mon_observed_latency(case, lines, meta):
+    """The injected latency AS THE COMPARED LOG SHOWS IT: instant of the `inner_call` line - instant of the `first_poll` line
+    (the harness prints `first_poll c svc=k` itself when it polls the call future of c for the first time). For the decision the
+    layer reports for a request: "error" => the injected error at the instant of the `first_poll` line and no inner call; "pass" =>
+    the inner call at that instant; "lat:d" => the inner call exactly at the first poll of the request at or after first_poll + d
+    (so: observed latency >= d, and = d whenever the request is polled at first_poll + d), never earlier. (Lean:
+    observed_latency_at_least / observed_latency_exact / always_fails_every_call / transparent_whole_request.)"""
+    fpl, call, res = {}, {}, {}
+    for l in lines:
+        t, w = tparse(l)
+        if not w or t is None:
+            continue
+        if w[0] == "first_poll":
+            if int(w[1]) in fpl:
+                return "request %d has two first_poll lines" % int(w[1])
+            fpl[int(w[1])] = (t, int(kvs(l).get("svc", "0")))
+        elif w[0] == "inner_call":
+            if int(w[1]) not in fpl:
+                return "request %d reached the inner service (t=%d) before it was ever polled" % (int(w[1]), t)
+            call.setdefault(int(w[1]), []).append(t)
+        elif w[0] == "result" and w[2] != "notready":
+            if int(w[1]) not in fpl:
+                return "request %d has a result (t=%d) before it was ever polled" % (int(w[1]), t)
+            res[int(w[1])] = (t, w[2])
+    i = _scan(case, lines, meta)
+    svc_of, _ = _services(meta)
+    for c, t in i["fp"].items():
+        if c not in fpl or fpl[c][0] != t or fpl[c][1] != svc_of.get(c, fpl[c][1]):
+            return "request %d was first polled at t=%d on service %s, the log says %s" % (c, t, svc_of.get(c), fpl.get(c))
+    polls = _poll_instants(case)
+    _, _, seen, _ = _decisions(meta)
+    for c in sorted(fpl):
+        t0 = fpl[c][0]
+        ds = seen.get(c, [])
+        if len(ds) != 1:
+            continue                                 # no / several reported decisions: the correspondence check reports that
+        d = ds[0]
+        if d == "error":
+            if c in call:
+                return "request %d: the layer reports an injected error, the log shows an inner call at t=%s" % (c, call[c])
+            if c not in res or res[c][0] != t0 or not _injected(res[c][1]):
+                return "request %d: the layer reports an injected error at its first poll (t=%d), the log shows %s" % (c, t0, res.get(c))
+            continue
+        want = t0 if d == "pass" else t0 + int(d[4:])
+        due = [p for p in polls.get(c, []) if p >= want]
+        if c in call:
+            t1 = call[c][0]
+            if t1 < want:
+                return ("request %d: first polled t=%d, the layer reports %s, but the inner call is at t=%d: observed latency %d ms"
+                        % (c, t0, d, t1, t1 - t0))
+            if due and t1 != due[0]:
+                return ("request %d: first polled t=%d, the layer reports %s, polled at t=%d, but the inner call is only at t=%d: "
+                        "observed latency %d ms" % (c, t0, d, due[0], t1, t1 - t0))
+        elif due and not (c in res and _injected(res[c][1])):
+            return ("request %d: first polled t=%d, the layer reports %s, polled at t=%d and still no inner call"
+                    % (c, t0, d, due[0]))
+    return None
+
+
 def transitions(case, lines, meta=None):
     cfg = kvs(case["header"])
     tags = []
@@ -1016,6 +1075,18 @@ def transitions(case, lines, meta=None):
         w = m.split()
         if w[0] == "#fp":
             fp[int(w[1])] = int(w[2])
+    # the injected latency as the compared log shows it (first_poll line -> inner_call line) against the reported one
+    _, _, seen_d, _ = _decisions(meta or [])
+    fpl = {}
+    for l in lines:
+        t, w = tparse(l)
+        if w and w[0] == "first_poll" and t is not None:
+            fpl[int(w[1])] = t
+        elif w and w[0] == "inner_call" and t is not None and int(w[1]) in fpl:
+            d = seen_d.get(int(w[1]), [])
+            if len(d) == 1 and d[0].startswith("lat:"):
+                ms, obs_ms = int(d[0][4:]), t - fpl[int(w[1])]
+                tags.append("latency-zero" if ms == 0 else "latency-observed-exact" if obs_ms == ms else "latency-observed-late")
     for l in lines:
         t, w = tparse(l)
         if not w:
@@ -1070,7 +1141,8 @@ ALL = ["range-eq", "range-inverted", "range-proper", "no-error-injector", "rate-
        "modes-strict-at-erate-1", "modes-strict-at-lrate-1", "modes-strict-at-rates-mid",
        "builder-with-rate-all", "builder-with-rate-split", "entry-new", "entry-default", "name-unset", "name-custom",
        "services-2plus", "service-starts-after-sibling-served", "services-interleaved", "services-2plus-decisions-each",
-       "service-from-layer-clone", "service-from-layer-clone-taken-after-services-built", "draw-scheme-as-reference"]
+       "service-from-layer-clone", "service-from-layer-clone-taken-after-services-built", "draw-scheme-as-reference",
+       "latency-zero", "latency-observed-exact", "latency-observed-late"]
 
 LEVEL_NOTE = ("Trusted: Lean kernel; the reading of service.rs:91-152 as the poll-level machine of TR.Model.Chaos (what a request does once its "
               "decision is taken), validated by the sampled correspondence check; the decision itself is NOT modelled as a particular function: the "
@@ -1090,8 +1162,10 @@ COMMON = {
     "transitions": transitions,
     "nontrivial": nontrivial,
     "all_transitions": ALL,
-    "model_modules": ["TR.Model.Chaos", "TR.Lemmas.Chaos", "TR.Lemmas.ChaosStress", "TR.Lemmas.ChaosHandles"],
-    "lean_files": ["TR.Model.Chaos", "TR.Lemmas.Chaos", "TR.Lemmas.ChaosStress", "TR.Lemmas.ChaosHandles"],
+    "model_modules": ["TR.Model.Chaos", "TR.Lemmas.Chaos", "TR.Lemmas.ChaosStress", "TR.Lemmas.ChaosHandles", "TR.Lemmas.ChaosTrace",
+                      "TR.Lemmas.ChaosInjector"],
+    "lean_files": ["TR.Model.Chaos", "TR.Lemmas.Chaos", "TR.Lemmas.ChaosStress", "TR.Lemmas.ChaosHandles", "TR.Lemmas.ChaosTrace",
+                   "TR.Lemmas.ChaosInjector"],
     "sizes": (600, 30000),
     "rule": "seeded random cases: seed (fixed and random u64), error/latency rates as thresholds n/2^53 (0, 1, 2^-53, 1-2^-53, 1/2, random), arbitrary "
             "f64 bit patterns incl. subnormal and out-of-range, or placed exactly on / one step next to the i-th roll of the seed's stream; "
@@ -1113,7 +1187,8 @@ COMMON = {
                 "that decision must have is predicted by the model and compared",
                 "determinism itself (same seed + same request order => same decisions) is decided by implementation-side monitors on sampled cases, not by proof",
                 "rand only for the instance theorem: random::<f64>() in [0,1) with 53-bit numerators, random_range(a..=b) in [a,b] (abstract generator + contract)",
-                "harness: f64->threshold decoding, virtual clock, manual poller",
+                "harness: f64->threshold decoding, virtual clock, manual poller; the line `first_poll c svc=k` is printed by the harness when it polls a "
+                "call future for the first time (consistent with world.rs's `#fp`: monitor c19-observed-latency)",
                 "std::sync::Mutex gives mutual exclusion (the model's atomic decision block); probed, not proved, by the real-thread stress search",
                 "python diff/monitors"],
     "assumptions": ["the layer is built with a seed; rates in [0,1]; latency bounds compared in whole milliseconds",
@@ -1133,7 +1208,19 @@ COMMON = {
                   "multiset of decisions as a sequential run (interleaving_multiset, interleavings_agree, stress_oracle_sound) — given that a request's "
                   "decision is taken atomically; dropping every handle at any point leaves the run what it is without that operation and the later "
                   "arrivals (handles_dropped_no_effect, …); the whole seconds of a bound count (bound_in_ms, latency_at_least_min, "
-                  "one_second_is_one_second). The model consumes the decision the real ChaosLayer reports and predicts the behaviour; determinism is "
+                  "one_second_is_one_second). OVER THE COMPARED, TIMESTAMPED LOG (State.tlog = the log with the instants the driver prints: "
+                  "trace_is_the_log; it contains the harness's line `first_poll c svc=k`): the lines of a request are exactly what its decision "
+                  "dictates (request_lines, decision_observable: decision = inject iff a result and NO inner_call; the ghost decision list is the list "
+                  "of first_poll lines); the i-th request with a first_poll line on service k shows decision sigma k i (log_decisions_are_stream, "
+                  "log_inject_sequence_is_stream, log_deterministic); inner_call instant - first_poll instant >= the stream's latency for every "
+                  "schedule and = it when no adv jumps over a wake-up (Timely; observed_latency_at_least/_exact/_in_bounds incl. min = max and "
+                  "min > max, log_latencies_deterministic); error rate 1 => every polled request has exactly first_poll + the injected error at the "
+                  "same instant and the log holds no inner_call (always_fails_every_call); rates 0/0 => every polled request has exactly one "
+                  "inner_call, at its first poll, and its result is that call's answer unchanged (transparent_whole_request). An arbitrary "
+                  "ErrorInjector (public trait; only the two shipped ones can be installed): decideI — latency bounds and 'inject iff the injector "
+                  "says so' hold for every injector, the extremes and determinism need stated conditions, with counter-models (any_injector, "
+                  "injector_extremes, injector_and_determinism, injectors_breaking_the_extremes). The model consumes the decision the real "
+                  "ChaosLayer reports and predicts the behaviour; determinism is "
                   "tied to the real layer by the twin / services / parallel-vs-sequential monitors.",
 }
 
@@ -1143,5 +1230,6 @@ SPECS = {
                           ("c19-determinism-witness", mon_witness),
                           ("c19-error-skips-inner", mon_error_skips_inner),
                           ("c19-extremes", mon_extremes), ("c19-latency-bounds", mon_latency),
+                          ("c19-observed-latency", mon_observed_latency),
                           ("c19-readiness", mon_readiness), ("c19-parallel-stress", mon_stress)]),
 }
